@@ -23,7 +23,8 @@ From DD Require Import Base.PyStr Base.Value Diff.Tree Diff.DiffModel Hash.HashM
   HashDiff.HashDiffModel HashDiff.HashDiffProofsDefault HashDiff.HashDiffProofsNum
   HashDiff.HashDiffProofsAtoms HashDiff.HashDiffProofsInv HashDiff.HashDiffProofsLift HashDiff.HashDiffProofsKeys
   HashDiff.HashDiffProofsWitness HashDiff.HashDiffProofsSat HashDiff.HashDiffProofsParts HashDiff.HashDiffProofsWitness2.
-From DD Require Options.OptDtModel Options.YValue Options.YModel HashDiff.HashDiffYModel HashDiff.HashDiffYProofs HashDiff.HashDiffYWitness.
+From DD Require Options.OptDtModel Options.YValue Options.YModel HashDiff.HashDiffYModel HashDiff.HashDiffYProofs HashDiff.HashDiffYWitness HashDiff.HashDiffYSets.
+From DD Require HashDiff.HashDiffTextModel HashDiff.HashDiffTextProofs.
 
 (* ------------------------------------------------------------------------- *)
 (** (1) The property at DEFAULT options, all nested values: corollary of C05 + C06 + C07
@@ -356,6 +357,58 @@ Theorem C12_memo_alias_refuted :
 Proof. exact memo_alias_refuted. Qed.
 Print Assumptions C12_memo_alias_refuted.
 
+(* K2 WITH options, inside ONE DeepHash call (the hash side on HashModel.deephash: its own table, keyed by ==):
+   {2: [], 'a': 2} vs {'a': 2, 2.0: []} under ignore_string_case + significant_digits=3 - the hashes are equal
+   only through the alias (on alias-free tables they differ), key cleaning tells the keys apart *)
+Theorem C12_memo_alias_options_refuted :
+  pystr_eqb (deephash hexhash (hoptsF Fcs3 true false) k2o_a) (deephash hexhash (hoptsF Fcs3 true false) k2o_b) = true /\
+  hash_eqF hexhash cfg_def Fcs3 false k2o_a k2o_b = false /\
+  verdictF hexhash no_ud cfg_def Fcs3 false no_pairs k2o_a k2o_b = DNonEmpty /\
+  wf k2o_a = true /\ wf k2o_b = true /\ alias_free k2o_b = false.
+Proof. exact memo_alias_options_refuted. Qed.
+Print Assumptions C12_memo_alias_options_refuted.
+
+(* ------------------------------------------------------------------------- *)
+(** (4b) Text beyond ASCII and the two float zeros (HashDiff/HashDiffTextModel.v: str = Latin-1 code points,
+        bytes = raw bytes with a UTF-8 decoder that can fail, 0.0 / -0.0), atoms only. *)
+Module T.
+Import HashDiffTextModel HashDiffTextProofs.
+
+(* the two zeros, EXACTLY: the diff engine never tells them apart; the engines agree iff the signs are equal
+   or a precision is in force (number_to_string takes abs of a zero) *)
+Theorem C12_zero_exact :
+  forall F n1 n2,
+  t_reports F (TZ n1) (TZ n2) = false /\
+  t_agree F (TZ n1) (TZ n2) = (Bool.eqb n1 n2 || match t_digits F with Some _ => true | None => false end).
+Proof. exact zero_exact. Qed.
+Print Assumptions C12_zero_exact.
+
+(* two str objects - any Latin-1 text, ASCII or not - ALWAYS agree, under every option: the non-ASCII
+   findings are about bytes only *)
+Theorem C12_str_str_agree : forall F s t, t_agree F (TS s) (TS t) = true.
+Proof. exact str_str_agree. Qed.
+Print Assumptions C12_str_str_agree.
+
+Theorem C12_negative_zero_refuted :
+  t_hash_eq T0 (TZ true) (TZ false) = Some false /\ t_reports T0 (TZ true) (TZ false) = false /\
+  t_agree Tsig2 (TZ true) (TZ false) = true.
+Proof. exact negative_zero_refuted. Qed.
+Print Assumptions C12_negative_zero_refuted.
+
+Theorem C12_nonascii_bytes_refuted :
+  t_hash_eq Tstrty (TS [233%N]) (TB [195%N; 169%N]) = Some true /\ t_reports Tstrty (TS [233%N]) (TB [195%N; 169%N]) = true /\
+  t_hash_eq Tcase (TB [195%N; 137%N]) (TB [195%N; 169%N]) = Some true /\ t_reports Tcase (TB [195%N; 137%N]) (TB [195%N; 169%N]) = true /\
+  t_agree Tcase (TS [201%N]) (TS [233%N]) = true /\ t_agree Tstrty (TS [97%N]) (TB [97%N]) = true.
+Proof. exact nonascii_bytes_refuted. Qed.
+Print Assumptions C12_nonascii_bytes_refuted.
+
+Theorem C12_undecodable_bytes_refuted :
+  t_hash_eq T0 (TB [255%N]) (TB [255%N]) = None /\ t_reports T0 (TB [255%N]) (TB [255%N]) = false /\
+  t_hash_eq Tstrty (TB [255%N]) (TB [254%N]) = None /\ t_reports Tstrty (TB [255%N]) (TB [254%N]) = true.
+Proof. exact undecodable_bytes_refuted. Qed.
+Print Assumptions C12_undecodable_bytes_refuted.
+End T.
+
 (* ------------------------------------------------------------------------- *)
 (** (5) Round 3: the EXTENDED universe (Options/YValue.v: arbitrary floats, Decimal, datetime / date /
         time / timedelta, Enum members) and ALL shared options (+ truncate_datetime, default_timezone,
@@ -387,6 +440,18 @@ Theorem C12_datetime_spec :
     dt_trunc (o_trunc F) u2 - 60000000 * match o2 with Some o => o | None => o_tz F end)%Z).
 Proof. exact y_datetime_spec. Qed.
 Print Assumptions C12_datetime_spec.
+
+(* timedeltas (compared with != by _diff_time, hashed from their microseconds): equal hashes <-> nothing reported,
+   for every option set; DeepHash RAISES on a timedelta exactly when a precision is in force (significant_digits,
+   or ignore_numeric_type_changes with its 12 digits): finding C12-timedelta-hash-TypeError, exactly *)
+Theorem C12_timedelta_hash_iff_diff :
+  forall (H : pystr -> pystr), (forall s t, H s = H t -> s = t) ->
+  forall udiff F, o_excl F = [] ->
+  forall u1 u2 p1 p2,
+  (yh_atom H F (ATd u1) = yh_atom H F (ATd u2) <-> leafR udiff F (ATd u1) (ATd u2) p1 p2 = Ok []) /\
+  yh_err F (ATd u1) = match eff_sig F with Some _ => Some EType | None => None end.
+Proof. exact y_timedelta_hash_iff_diff. Qed.
+Print Assumptions C12_timedelta_hash_iff_diff.
 
 (* use_enum_value.  DeepHash always hashes the value; _diff unwraps exactly when the TYPES differ (a
    plain value, a member of another class) and then compares without type check (the None edge
@@ -516,4 +581,54 @@ Theorem C12_extended_universe_agree_examples :
   other_class (s2p "E") (AInt 1) = true /\ is_none (atom_of_e (EInt 1)) = false.
 Proof. exact y_agree_examples. Qed.
 Print Assumptions C12_extended_universe_agree_examples.
+(* one level above the leaves: SETS / frozensets of extended atoms (Enum members, Decimals, floats, dates,
+   datetimes ...), every combination of the shared options, report_repetition off: equal stand-alone hashes
+   <-> _diff_set reports nothing, provided truncate_datetime is off or the sets hold no datetime / time -
+   exactly the condition under which the member texts of the two engines coincide (otherwise:
+   C12_truncate_not_forwarded_refuted) *)
+Theorem C12_set_hash_iff_diff_partial :
+  forall (H : pystr -> pystr),
+  (forall s, HashProofsC07.sepfree (H s)) -> (forall s t, H s = H t -> s = t) -> (forall s, lower (H s) = H s) ->
+  forall F priv, o_excl F = [] ->
+  forall xs ys p1 p2, HashDiffYSets.trunc_free F xs = true -> HashDiffYSets.trunc_free F ys = true ->
+  (yhash H F priv false (VSet xs) = yhash H F priv false (VSet ys) <-> diff_setF F xs ys p1 p2 = []) /\
+  (yhash H F priv false (VFrozen xs) = yhash H F priv false (VFrozen ys) <-> diff_setF F xs ys p1 p2 = []).
+Proof. exact HashDiffYSets.y_set_hash_iff_diff. Qed.
+Print Assumptions C12_set_hash_iff_diff_partial.
+
+(* ... with report_repetition ON (DeepHash counts the members that share a hash, _diff_set compares the sets of
+   member hashes): additionally the member texts of each set pairwise different - otherwise finding
+   C12-set-member-collision ([set_rep_guard]: {'a','A'} under ignore_string_case is outside and the engines disagree) *)
+Theorem C12_set_hash_iff_diff_rep_partial :
+  forall (H : pystr -> pystr),
+  (forall s, HashProofsC07.sepfree (H s)) -> (forall s t, H s = H t -> s = t) -> (forall s, lower (H s) = H s) ->
+  forall F priv, o_excl F = [] ->
+  forall xs ys p1 p2, HashDiffYSets.trunc_free F xs = true -> HashDiffYSets.trunc_free F ys = true ->
+  HashDiffYSets.nodup_txt (map (hatomF F) xs) = true -> HashDiffYSets.nodup_txt (map (hatomF F) ys) = true ->
+  (yhash H F priv true (VSet xs) = yhash H F priv true (VSet ys) <-> diff_setF F xs ys p1 p2 = []) /\
+  (yhash H F priv true (VFrozen xs) = yhash H F priv true (VFrozen ys) <-> diff_setF F xs ys p1 p2 = []).
+Proof. exact HashDiffYSets.y_set_hash_iff_diff_rep. Qed.
+Print Assumptions C12_set_hash_iff_diff_rep_partial.
+
+Theorem C12_set_rep_guard_examples :
+  HashDiffYSets.nodup_txt (map (hatomF Yenum_case) [AStr (s2p "a"); AStr (s2p "A")]) = false /\
+  obs Yenum_case true (VSet [AStr (s2p "a"); AStr (s2p "A")]) (VSet [AStr (s2p "a")]) = (Some false, YEmpty) /\
+  HashDiffYSets.nodup_txt (map (hatomF Yenum_case) [E_B; AInt 1]) = true /\
+  obs Yenum_case true (VSet [E_B; AInt 1]) (VSet [AInt 1; AStr (s2p "X")]) = (Some true, YEmpty).
+Proof. exact HashDiffYSets.set_rep_guard. Qed.
+Print Assumptions C12_set_rep_guard_examples.
+
+(* the guard is the syntactic condition under which the two engines hand the SAME text to the hasher *)
+Theorem C12_member_texts_coincide :
+  forall F a, (o_trunc F = None \/ HashDiffYSets.dt_like a = false) -> yh_text F a = hatomF F a.
+Proof. exact HashDiffYSets.yh_text_hatomF. Qed.
+Print Assumptions C12_member_texts_coincide.
+
+(* ... satisfiable by non-trivial sets (an Enum member and its value under use_enum_value, a datetime without truncation) *)
+Theorem C12_set_guard_satisfiable :
+  HashDiffYSets.trunc_free Yenum [E_A; ADt t_10_20_30 None] = true /\
+  obs Yenum false (VSet [E_A; ADt t_10_20_30 None]) (VSet [ADt t_10_20_30 None; AInt 1]) = (Some true, YEmpty) /\
+  HashDiffYSets.trunc_free (Ytrunc UMinute) [ADt t_10_20_01 None] = false.
+Proof. exact HashDiffYSets.set_guard_satisfiable. Qed.
+Print Assumptions C12_set_guard_satisfiable.
 End Y.
